@@ -8,6 +8,7 @@ from checks import callcommon
 from framework import Case, Finding
 
 PROP = "C14"
+GENERATED = ['DtypeTables']  # generated files this check's tie depends on
 LEAN_MODULES = ["Properties.C14"]
 RULE = (
     "seeded ordered field lists (1-4 fields over the context dimension alphabet: optional fields, multi-axis, expressions, mixed plain "
@@ -27,9 +28,11 @@ def cases(tier, rng, run):
         ok = all(s.value[0] == "T" or (s.value[0] == "N" and s.optional) for p in c.params for s in p.slots)
         if not ok:
             continue
-        if rng.random() < 0.2:
-            # a plain field in between
-            pass
+        if rng.random() < 0.4:
+            # plain (un-annotated) fields in any position, the first one included
+            for _ in range(rng.randint(1, 2)):
+                pos = rng.randint(0, len(c.params))
+                c.params.insert(pos, gen_ctx.Param(f"k{len(c.params)}", [gen_ctx.Slot(None, None, False, ("X",))], False))
         for kind, style in (("func", rng.choice(["pos", "kw"])), ("nt", rng.choice(["pos", "kw", "kwrev"])), ("dc", rng.choice(["pos", "kw", "kwrev"])), ("pyd", rng.choice(["kw", "kwrev"]))):
             out.append(Case(c.call_line(kind, style), kind, {"group": gi, "ctx": c}))
     return out
